@@ -25,3 +25,20 @@ Print Assumptions rawhessian_eq_quadratic.
 Theorem loss_curvature_bound_logistic : forall t, 0 < t -> t / (1 + t) ^ 2 <= / 4.
 Proof. exact logistic_curvature_bound. Qed.
 Print Assumptions loss_curvature_bound_logistic.
+
+(* Huber and Logistic coordinate constants as regenerated, and the logistic bound at every point *)
+Require Import SK.Lemmas.LipschitzMore.
+Theorem huber_lipschitz_is_mean_square : forall (X : list (list R)) (y : list R), y <> nil ->
+  @Huber_get_lipschitz R _ X y = Ok (map (fun col => sqnorm col / nR y) X).
+Proof. exact Huber_get_lipschitz_spec. Qed.
+Print Assumptions huber_lipschitz_is_mean_square.
+Theorem logistic_lipschitz_is_quarter_mean_square : forall (X : list (list R)) (y : list R), y <> nil ->
+  @Logistic_get_lipschitz R _ X y = Ok (map (fun col => sqnorm col / (4 * nR y)) X).
+Proof. exact Logistic_get_lipschitz_spec. Qed.
+Print Assumptions logistic_lipschitz_is_quarter_mean_square.
+(* 1/n sum_i x_ij^2 s_i (1 - s_i) <= ||X_j||^2 / (4 n) for every point: t_i = exp(y_i (Xw)_i) > 0 is arbitrary *)
+Theorem logistic_constant_dominates_curvature_everywhere : forall (col ts : list R) (n : R), 0 < n -> length col = length ts ->
+  Forall (fun t => 0 < t) ts ->
+  rsum (vmap2 (fun x t => x * x * (t / (1 + t) ^ 2)) col ts) / n <= sqnorm col / (4 * n).
+Proof. exact Logistic_constant_bounds_curvature. Qed.
+Print Assumptions logistic_constant_dominates_curvature_everywhere.
